@@ -743,7 +743,7 @@ pub fn run_calculator(line: &str) -> Result<String, &str> {
             if line.contains('.') {
                 Ok(format!("{}", calculator::eval_float(expr)))
             } else {
-                Ok(format!("{}", calculator::eval_int(expr)))
+                calculator::eval_int(expr).map(|v| format!("{}", v))
             }
         }
         Err(_) => {
